@@ -73,6 +73,8 @@ type TxnHist struct {
 	// withdrew the flag depends on where the call failed.
 	InsertUncertain map[string]bool
 	UsedAggressive  bool // the transaction used aggressive (fair) locking stages
+	// Asserted: key -> assertion flag put on the buffered key before Commit (Prog.Asserts restricted to the buffer)
+	Asserted map[string]string
 	Done            bool
 }
 
@@ -295,6 +297,15 @@ func classify(err error) string {
 }
 
 func sp(s string) *string { return &s }
+
+func sortedKeys[V any](m map[string]V) []string {
+	ks := make([]string, 0, len(m))
+	for k := range m {
+		ks = append(ks, k)
+	}
+	sort.Strings(ks)
+	return ks
+}
 
 func copyBuf(m map[string]*string) map[string]*string {
 	c := make(map[string]*string, len(m))
@@ -653,6 +664,23 @@ func (w *World) runTxn(p *TxnProg, h *TxnHist) {
 		_ = txn.Rollback()
 	} else {
 		h.EndKind = "commit"
+		switch p.AssertLevel {
+		case "fast":
+			txn.SetAssertionLevel(kvrpcpb.AssertionLevel_Fast)
+		case "strict":
+			txn.SetAssertionLevel(kvrpcpb.AssertionLevel_Strict)
+		}
+		if len(p.Asserts) > 0 {
+			h.Asserted = map[string]string{}
+			for _, k := range sortedKeys(p.Asserts) {
+				if _, ok := h.Buf[k]; !ok {
+					continue
+				}
+				h.Asserted[k] = p.Asserts[k]
+				txn.GetMemBuffer().UpdateFlags([]byte(k), map[string]kv.FlagsOp{"exist": kv.SetAssertExist, "notexist": kv.SetAssertNotExist, "unknown": kv.SetAssertUnknown}[p.Asserts[k]])
+				w.Sim.Count("probe.assert." + p.Asserts[k])
+			}
+		}
 		cctx := ctx
 		if p.CancelMs > 0 {
 			var cancel context.CancelFunc
